@@ -124,6 +124,12 @@ func verifC12Check(in *verifSHAInput, r *verifSHAResult, report func(key, msg st
 			if inN[k] {
 				kind = "a new node"
 			}
+			if !requested[k] {
+				// not even requested to leave: not the recorded known finding
+				report("C12:leaving-invented-key", fmt.Sprintf("Leaving holds %x which is %s and was in no leaving request; %s", k, kind, ctx()))
+				continue
+			}
+			// known finding: a key of the leaving *request* lists that is neither eligible nor waiting is echoed in Leaving
 			report("C12:leaving-unknown-key", fmt.Sprintf("Leaving holds %x which is %s; %s", k, kind, ctx()))
 		}
 	}
